@@ -21,6 +21,10 @@ def run_models(chk, quick, which=("sched", "pipe")):
             ("EnkiTS", "EnkiTS_neg_split.cfg", "refuted", "negative control: pipe-full branch compares m_RangeToRun with the requested split (code as pinned) -> NoOob"),
             ("EnkiTS", "EnkiTS_neg_free.cfg", "refuted", "negative control: schedule() task deletes itself inside ExecuteRange (code as pinned) -> NoUaf"),
         ]
+        jobs += [("EnkiTS", "EnkiTS_cuts_2_5.cfg", "holds", "2 threads, 5 indices, no pipe-full branch: every Exec range is a partition of EnkiCuts (ExecAtCuts)"),
+                 ("EnkiTS", "EnkiTS_cuts_3_7.cfg", "holds", "3 threads, 7 indices: ExecAtCuts, NoFullBranch")]
+        if not quick:
+            jobs += [("EnkiTS", "EnkiTS_cuts_3_13.cfg", "holds", "3 threads, 13 indices (ranges of 2): ExecAtCuts, NoFullBranch")]
         if not quick:
             jobs += [("EnkiTS", "EnkiTS_3t.cfg", "holds", "3 threads, capacity 2, 6 indices"),
                      ("EnkiTS", "EnkiTS_3t_full.cfg", "holds", "3 threads, capacity 1 + foreign entry, schedule() task, 5 indices")]
@@ -100,11 +104,11 @@ def run_pipe_conformance(chk, quick):
         execs = [json.loads(l)["events"] for l in open(outp) if l.strip()]
         os.remove(outp)
         acc, rej, st = trace.validate(os.path.join(SPEC, "PipeContract.tla"), os.path.join(SPEC, "PipeContract.cfg"), execs,
-                                      "c01-ilist", reset_key="ev", max_rejections=1000)
-        chk.cov["intrusive_list_extra"] = {"executions": len(execs), "accepted": acc, "rejected": len(rej)}
+                                      "c01-ilist", reset_key="ev", max_rejections=6)
+        chk.cov["intrusive_list_extra"] = {"executions": len(execs), "rejected_at_least": len(rej)}
         chk.note("coverage beyond the listed properties: enkiTS LocklessMultiWriteIntrusiveList (pinned-task list, not reachable through "
-                 "rkcommon's API): %d of %d real executions lose nodes (rejected by PipeContract at End), as TLC's counter-example to NoLoss on "
-                 "IntrusiveList.tla predicts" % (len(rej), len(execs)))
+                 "rkcommon's API): at least %d of %d real executions lose nodes (rejected by PipeContract at End; validation stops after 6 "
+                 "rejections), as TLC's counter-example to NoLoss on IntrusiveList.tla predicts" % (len(rej), len(execs)))
 
 
 def replay_pipe(chk, rep):
